@@ -322,6 +322,60 @@ def make_exc(name):
 
 
 # ---------------------------------------------------------------------------
+# Display peer: sempler.plot talks to matplotlib (absent here) and to networkx's drawing functions (which need a
+# real matplotlib).  Both are replaced by a simulated display that records every request and can fail
+# (seam "display.*").  sempler/plot.py itself, networkx's graph construction and layout, and sempler.utils are real.
+
+class _NxProxy:
+    """`nx` as seen by sempler.plot: real networkx, except for the two drawing functions."""
+
+    def __init__(self, real):
+        self.__dict__["_real"] = real
+
+    def __getattr__(self, name):
+        return getattr(self._real, name)
+
+    def draw(self, G, pos=None, **kw):
+        from matplotlib import _display
+        edges = sorted((int(u), int(v), repr(d.get("weight", 1))) for u, v, d in G.edges(data=True))
+        _display.message("nx.draw", edges, sorted(pos) if pos else None,
+                         dict((k, dict(v) if isinstance(v, dict) else v) for k, v in kw.items()))
+
+    def draw_networkx_edge_labels(self, G, pos, edge_labels=None, **kw):
+        from matplotlib import _display
+        _display.message("nx.edge_labels", dict(edge_labels or {}), kw)
+
+
+def plot_module():
+    """sempler.plot against the simulated display.  Loaded at the first plotting call of a run, not at boot: what
+    the application has imported is process state (networkx comes with it), and most runs never plot."""
+    m = sys.modules.get("sempler.plot")
+    if m is not None and getattr(m, "_semsim_display", False):
+        return m
+    p = os.path.join(VERIF, "fake_mpl")
+    if p not in sys.path:
+        sys.path.insert(1, p)
+    import matplotlib
+    if not os.path.realpath(matplotlib.__file__).startswith(p + os.sep):
+        raise RuntimeError("a real matplotlib was imported instead of the simulated display")
+    import networkx
+    import sempler.plot as m
+    f = os.path.realpath(m.__file__)
+    if not f.startswith(_state["repo"] + os.sep):
+        raise RuntimeError("sempler.plot imported from %s" % f)
+    if getattr(m, "nx", None) is networkx:
+        m.nx = _NxProxy(networkx)
+    from matplotlib import _display
+    if "display.*" not in SEAMS:
+        SEAMS["display.*"] = Seam("display.*", lambda kind: None)
+    _display.HOOK = SEAMS["display.*"]
+    if os.environ.get("SEMSIM_NO_NP_PROXY") != "1":
+        install_numpy_proxy([m])
+    m._semsim_display = True
+    return m
+
+
+# ---------------------------------------------------------------------------
 
 def boot(repo="/repo", with_peer=False, quiet=True):
     """Patch, set sys.path, import sempler from `repo`.  Idempotent per process."""
